@@ -4,6 +4,7 @@ import UtilModel.RefCount.ObsHeld
 import UtilModel.RefCount.ObsHidden
 import UtilModel.RefCount.ObsEv
 import UtilModel.RefCount.ConsLift
+import UtilModel.RefCount.Transfer
 open UtilModel UtilModel.RefCount
 #print axioms UtilModel.accepts_sound
 #print axioms UtilModel.accepted_satisfies
@@ -33,3 +34,9 @@ open UtilModel UtilModel.RefCount
 #print axioms RefCount.c08_obs
 #print axioms RefCount.Cons.lift_sim
 #print axioms RefCount.Cons.c08c_obs
+#print axioms UtilModel.C08_accepted_refcount
+#print axioms UtilModel.C08c_accepted_refcount_consumers
+#print axioms UtilModel.complete_refcount
+#print axioms UtilModel.reject_sound_refcount
+#print axioms UtilModel.complete_refcount_consumers
+#print axioms UtilModel.reject_sound_refcount_consumers
